@@ -41,6 +41,9 @@ type Prop struct {
 	Describe func(op string) string
 	// QuickN / ThoroughN: generated cases per tier.
 	QuickN, ThoroughN int
+	// Isolate runs the implementation side in child processes (a fatal runtime error - stack
+	// overflow, out of memory - or a hang then costs one case, not the whole check).
+	Isolate bool
 	// Fixed produces op lines that run on every check before the generated ones (regression
 	// inputs of repaired defects, exhaustive finite families).
 	Fixed func() []string
@@ -198,8 +201,12 @@ func loadKnown(file string) []knownFinding {
 // evaluate runs a batch of op lines through implementation, model and judge.
 func evaluate(p *Prop, driver string, ops []string, known []knownFinding, res *Result, replayDir string, seen map[string]bool) error {
 	impl := make([]string, len(ops))
-	for i, op := range ops {
-		impl[i] = safeExec(p, op)
+	if p.Isolate {
+		execIsolated(p, ops, impl)
+	} else {
+		for i, op := range ops {
+			impl[i] = safeExec(p, op)
+		}
 	}
 	model, err := runDriver(driver, ops)
 	if err != nil {
@@ -341,4 +348,74 @@ func runProp(p *Prop, tier string, seed int64, driver, verifDir string, mult int
 	}
 	res.WallS = time.Since(t0).Seconds()
 	return res, nil
+}
+
+// execIsolated runs the ops in child processes of this binary (`-execops file`), which print
+// one observation per op.  When a child dies or hangs, the op it was working on is recorded as
+// "crash ..." and a new child continues after it.
+func execIsolated(p *Prop, ops []string, impl []string) {
+	self, err := os.Executable()
+	if err != nil {
+		for i, op := range ops {
+			impl[i] = safeExec(p, op)
+		}
+		return
+	}
+	start := 0
+	for start < len(ops) {
+		f, _ := os.CreateTemp("", "mxjverif-ops-")
+		for _, op := range ops[start:] {
+			f.WriteString(op + "\n")
+		}
+		f.Close()
+		cmd := exec.Command(self, "-prop", p.ID, "-execops", f.Name())
+		var out, errb bytes.Buffer
+		cmd.Stdout = &out
+		cmd.Stderr = &errb
+		cmd.Env = append(os.Environ(), "GOMEMLIMIT=2GiB", "GODEBUG=")
+		done := make(chan error, 1)
+		cmd.Start()
+		go func() { done <- cmd.Wait() }()
+		timedOut := false
+		select {
+		case <-done:
+		case <-time.After(120 * time.Second):
+			cmd.Process.Kill()
+			<-done
+			timedOut = true
+		}
+		os.Remove(f.Name())
+		lines := strings.Split(strings.TrimRight(out.String(), "\n"), "\n")
+		if out.Len() == 0 {
+			lines = nil
+		}
+		n := 0
+		for _, l := range lines {
+			if start+n < len(ops) && strings.HasPrefix(l, "=") {
+				impl[start+n] = l[1:]
+				n++
+			}
+		}
+		start += n
+		if start < len(ops) {
+			why := "fatal runtime error: " + oneLine(firstLineOf(errb.String()))
+			if timedOut {
+				why = "did not terminate within 120 s"
+			}
+			impl[start] = "crash " + why
+			start++
+		}
+	}
+}
+
+func firstLineOf(s string) string {
+	for _, l := range strings.Split(s, "\n") {
+		if strings.Contains(l, "fatal error") || strings.Contains(l, "runtime:") {
+			return l
+		}
+	}
+	if i := strings.Index(s, "\n"); i >= 0 {
+		return s[:i]
+	}
+	return s
 }
